@@ -16,6 +16,12 @@ pub fn copy_prefix(dst: &mut [u8; 22], l: usize, src: &[u8])
     requires l == src@.len(), l <= 22,
     ensures final(dst)@.subrange(0, l as int) == src@,
 { unimplemented!() }
+/// `&s[..n]` / `&s[0..n]` on a slice (panics when n is out of range)
+#[verifier::external_body]
+pub fn slice_prefix<'a>(s: &'a [u8], n: usize) -> (r: &'a [u8])
+    requires n <= s@.len(),
+    ensures r@ == s@.subrange(0, n as int),
+{ unimplemented!() }
 /// `&a[0..n]`
 #[verifier::external_body]
 pub fn array_prefix<'a>(a: &'a [u8; 22], n: usize) -> (r: &'a [u8])
@@ -82,7 +88,8 @@ impl SmallBytes {
 }
 
 //@fn rel=relay-crates/intern/src/small_bytes.rs name=make_small vis=pub ret=r serves=C05
-//@sub "bytes\[0\.\.l\]\.copy_from_slice\(b\);" => "copy_prefix(&mut bytes, l, b);" n=1
+//@sub "&(\w+)\[(?:0)?\.\.(\w+)\]" => "slice_prefix(\1, \2)" n=*
+//@sub "bytes\[(?:0)?\.\.(\w+)\]\.copy_from_slice\(([^;]+)\);" => "copy_prefix(&mut bytes, \1, \2);" n=1
 //@contract
     ensures
         r is Some ==> r->Some_0.wf() && r->Some_0.bytes_view() == b@, //@O C05.O-1_inline_copy_holds_exactly_the_bytes
